@@ -2,6 +2,39 @@
 
 The engine units model DependencyKeyIDs as a sequence of (key, orderOnly, singleUse) items; here the real two-vector
 representation (keys, flags) is checked against that view: flag packing round trip, parallel lengths, clear() empties both."""
+def _erase(tr, n, obj, args, argnodes):
+    """v.erase(v.begin() + index): the index is the right operand of the iterator addition"""
+    def find(x):
+        if isinstance(x, dict):
+            if x.get('kind') == 'CXXOperatorCallExpr':
+                return x
+            for c in x.get('inner', []):
+                r = find(c)
+                if r is not None:
+                    return r
+        return None
+    op = find({'inner': argnodes})
+    if op is None:
+        raise Exception('erase: expected begin() + index')
+    t = tr.ntype(n['inner'][0]['inner'][0]) if False else None
+    fn = 'vec_u8_erase_at' if 'flags' in obj else 'vec_keyid_erase_at'
+    return '%s(%s, %s)' % (fn, obj, tr.expr(op['inner'][-1]))
+
+
+# after the call the list is the old list without its single-use entries, in order, keys and flags still paired
+def _kept(k):
+    return ('((%d < g_n0 && !SU0(%d)) ==> (self->keys.ptr[CNT(0, %d)]._value == g_k0[%d] && self->flags.ptr[CNT(0, %d)] == g_f0[%d]))' % (k, k, k, k, k, k))
+
+
+def _tail(k):
+    # loop invariant: the entries of the old list from position i on that are kept sit behind the untouched prefix [0, i)
+    return ('((%d < g_n0 && %d >= $loopvar && !SU0(%d)) ==> (self->keys.ptr[$loopvar + CNT($loopvar, %d)]._value == g_k0[%d] && self->flags.ptr[$loopvar + CNT($loopvar, %d)] == g_f0[%d]))' % (k, k, k, k, k, k, k))
+
+
+def _head(k):
+    return '((%d < $loopvar) ==> (self->keys.ptr[%d]._value == g_k0[%d] && self->flags.ptr[%d] == g_f0[%d]))' % (k, k, k, k, k)
+
+
 V = ['__CPROVER_is_fresh(self, sizeof(*self))', 'VEC_OK(self->keys, struct KeyID)', 'VEC_OK(self->flags, uint8_t)', 'self->keys.len == self->flags.len']
 UNIT = {
     'name': 'depids',
@@ -14,7 +47,7 @@ UNIT = {
     'calls': {
         'm:@vec_keyid::clear': 'vec_keyid_clear', 'm:@vec_u8::clear': 'vec_u8_clear', 'm:@vec_keyid::size': 'vec_keyid_size', 'm:@vec_keyid::empty': 'vec_keyid_empty',
         'm:@vec_keyid::push_back': ('vec_keyid_push_back', 'v'), 'm:@vec_u8::push_back': ('vec_u8_push_back', 'v'),
-        'o:[]:@vec_keyid': '$o->ptr[$0]', 'o:[]:@vec_u8': '$o->ptr[$0]',
+        'o:[]:@vec_keyid': '$o->ptr[$0]', 'o:[]:@vec_u8': '$o->ptr[$0]', 'm:@vec_keyid::erase': _erase, 'm:@vec_u8::erase': _erase,
     },
     'prelude': '#include "models/base.h"\n#include "models/vec.h"\n#include "models/depids.h"\n',
     'functions': {
@@ -34,6 +67,15 @@ UNIT = {
         'DependencyKeyIDs::operator[]': {
             'cname': 'DependencyKeyIDs_index', 'requires': V + ['n < self->keys.len'], 'assigns': [],
             'ensures': [('P:C01,P:C03', 'RESULT.keyID._value == self->keys.ptr[n]._value && (RESULT.orderOnly != 0) == ((self->flags.ptr[n] & 1) != 0) && (RESULT.singleUse != 0) == (((self->flags.ptr[n] >> 1) & 1) != 0)')]},
+        'DependencyKeyIDs::cleanSingleUseDependencies': {
+            'requires': ['__CPROVER_is_fresh(self, sizeof(*self))', 'VEC_OKN(self->keys, struct KeyID, ND)', 'VEC_OKN(self->flags, uint8_t, ND)', 'self->keys.len == self->flags.len', 'g_n0 == self->keys.len',
+                         ' && '.join('(%d < g_n0 ==> (g_k0[%d] == self->keys.ptr[%d]._value && g_f0[%d] == self->flags.ptr[%d]))' % (k, k, k, k, k) for k in range(4))],
+            'assigns': ['self->keys.len', 'self->flags.len', '__CPROVER_object_whole(self->keys.ptr)', '__CPROVER_object_whole(self->flags.ptr)'],
+            'ensures': [('P:C01,P:C07', 'self->keys.len == CNT(0, ND) && self->flags.len == self->keys.len')] + [('P:C01,P:C07', _kept(k)) for k in range(4)],
+            'loops': {0: {'assigns': ['$loopvar', 'self->keys.len', 'self->flags.len', '__CPROVER_object_whole(self->keys.ptr)', '__CPROVER_object_whole(self->flags.ptr)'],
+                          'invariant': ['$loopvar >= 0 && (size_t)$loopvar <= g_n0 && self->keys.len == (size_t)$loopvar + CNT($loopvar, ND) && self->flags.len == self->keys.len && ' + ' && '.join(_head(k) for k in range(4)) + ' && ' + ' && '.join(_tail(k) for k in range(4))],
+                          'decreases': '$loopvar'}},
+        },
         'DependencyKeyIDs::size': {'requires': V, 'assigns': [], 'ensures': [('P:C01', 'RESULT == self->keys.len')]},
         'DependencyKeyIDs::empty': {'requires': V, 'assigns': [], 'ensures': [('P:C01', '(RESULT != 0) == (self->keys.len == 0)')]},
     },
